@@ -36,7 +36,7 @@ TREE_ASSUME = [
 PLANS = {
     'C06': {
         'quick': [tree('S3', 3, 1, 2, '{1}', 'S', 'S'), tree('K3', 3, 2, 2, '{1}', 'K', 'K'), tree('KB3', 3, 4, 2, '{1}', 'K', 'KB'),
-                  tree('RS4', 4, 1, 2, '{1}', 'S', 'RS'), tree('KL3', 3, 6, 2, '{1}', 'K', 'KB'), tree('B4', 4, 1, 2, '{1}', 'N', 'B')],
+                  tree('RS4', 4, 1, 2, '{1}', 'S', 'RS'), tree('KL3', 3, 6, 2, '{1}', 'K', 'KB'), tree('B4', 4, 1, 2, '{1}', 'N', 'B'), tree('O3', 3, 1, 2, '{1}', 'O', 'O')],
         'thorough': [tree('S4', 4, 1, 2, '{1}', 'S', 'S'), tree('K3', 3, 2, 2, '{1}', 'K', 'K'),
                      tree('R3', 3, 1, 2, '{1}', 'R', 'R')],
         'rule': 'every transition (state, public call, arguments) of the reachable state graph of Tree.tla within the bounds, '
@@ -637,6 +637,7 @@ PLANS['C06']['thorough'] = PLANS['C06']['thorough'] + [big_run('keylens', 'keys'
 for _p, _f in (('C02', 0), ('C03', 0), ('C04', 3), ('C05', 3), ('C06', -1), ('C07', -1), ('C11', -1), ('C12', 6), ('C15', 8), ('C16', 10), ('C17', 13), ('C18', 12), ('C19', 13)):
     PLANS[_p]['quick'] = PLANS[_p]['quick'] + [tracelib(8, 250, _f)]
     PLANS[_p]['thorough'] = PLANS[_p]['thorough'] + [tracelib(120, 400, _f), tracelib(40, 500, _f, 32)]
+    PLANS[_p]['technique'] = PLANS[_p]['technique'] + '; histories of the library as a whole recorded from the real code and validated step by step by TLC against Trace_Lib.tla'
     PLANS[_p]['rule'] = PLANS[_p]['rule'] + '; plus seeded random histories of the library as a whole (tree edits mixed with parse, print, compare, pointer, patch, merge-patch and generation calls on one pool of 24 nodes), every step validated by Trace_Lib.tla'
 # ---------------------------------------------------------------------------------------------- what the later tiers add (texts for evidence)
 PLANS['C15']['rule'] += '; index tokens congruent to small indices modulo 2^32 / 2^64; ladders of tokens of 256 - 2048 raw bytes with the escape at the cut under object, array and scalar parents; every lookup and construction repeated with left-over keys on array elements and with ownership flags'
